@@ -44,8 +44,25 @@ def ensure_user_ts():
     return USER_TS
 
 
+_MEM = {}
+
+
 def ts_arg(ts):
-    return USER_TS if ts == "user" else ts
+    """'user' = the harness's training-set directory; 'mem1' / 'mem2' =
+    two different in-memory (samples, response) tuples (fresh arrays for
+    every call, as a caller who loads them anew would pass them)"""
+    if ts == "user":
+        return USER_TS
+    if ts in ("mem1", "mem2"):
+        if not _MEM:
+            from nanite.rate.rater import IndentationRater
+            X, y = IndentationRater.load_training_set(
+                IndentationRater.get_training_set_path("zef18"))
+            _MEM["mem1"] = (X, y)
+            _MEM["mem2"] = (X[::2].copy(), y[::2].copy())
+        X, y = _MEM[ts]
+        return (X.copy(), y.copy())
+    return ts
 
 
 _RATERS = {}
@@ -62,10 +79,13 @@ def standalone_rater(reg, ts, names, lda):
         reg_cl, kw = state.pristine("nanite.rate.regressors",
                                     "reg_dict")[reg]
         tsp = ts_arg(ts)
-        if tsp in rmod.get_available_training_sets():
-            tsp = rmod.IndentationRater.get_training_set_path(label=tsp)
-        X, y = rmod.IndentationRater.load_training_set(path=tsp,
-                                                       names=names)
+        if isinstance(tsp, tuple):
+            X, y = tsp
+        else:
+            if tsp in rmod.get_available_training_sets():
+                tsp = rmod.IndentationRater.get_training_set_path(label=tsp)
+            X, y = rmod.IndentationRater.load_training_set(path=tsp,
+                                                           names=names)
         _RATERS[key] = rmod.IndentationRater(
             regressor=reg_cl(**kw), training_set=(X, y), names=names,
             lda=lda)
@@ -89,6 +109,20 @@ def expected_rating(idnt, reg, ts, names, lda):
         adm = {-1.0}
         if "feat_bin_size" in all_names and n_approach(idnt) < 600:
             adm.add(0.0)
+        # "... or 0 if an exclusion criterion already fails": decided from
+        # the binary features themselves (not from the rater's own logic)
+        try:
+            bnames = [n for n in all_names if n.startswith("feat_bin_")]
+            bvals = IF.compute_features(idnt, which_type="all",
+                                        names=bnames) if bnames else []
+            if any(v == 0 for v in bvals):
+                return {0.0}, "no successful current fit"
+            elif 0.0 in adm and len(bvals) and not any(v == 0
+                                                       for v in bvals):
+                adm = {-1.0}
+        except BaseException as e:
+            if isinstance(e, (KeyboardInterrupt, SystemExit, MemoryError)):
+                raise
         # ... and among the admissible values it is the one the stand-alone
         # rater computes from the curve as it is now (a value remembered
         # from another state of the curve is not)
@@ -249,7 +283,9 @@ class LongFitted(Driver):
            rating_op("Extra Trees", "user"),
            rating_op("Extra Trees"),
            rating_op("Decision Tree"),
-           rating_op("Decision Tree", "user", NAMES_B, True)]
+           rating_op("Decision Tree", "user", NAMES_B, True),
+           rating_op("Extra Trees", "mem1"),
+           rating_op("Extra Trees", "mem2")]
 
     def fresh(self):
         idnt = super().fresh()
